@@ -11,6 +11,26 @@ import re
 from .. import extract
 
 
+def _inline_helpers(src, body):
+    """calls `EntityTreeService::f(&a, &b)` / `Self::f(..)` of a helper of this file other than the get-or-create functions
+    are replaced by the helper's body with its parameters renamed to the arguments (one level; plain `&name` arguments only)"""
+    def repl(m):
+        name, args = m.group(1), [a.strip() for a in m.group(2).split(",") if a.strip()]
+        if name.startswith("get_or_create_entity") or not all(re.fullmatch(r"&?\s*(mut\s+)?\w+", a) for a in args):
+            return m.group(0)
+        sig = re.search(r"fn\s+%s\s*\(([^)]*)\)" % name, src)
+        if not sig:
+            return m.group(0)
+        params = [q.split(":")[0].strip() for q in sig.group(1).split(",") if q.strip() and "self" not in q.split(":")[0]]
+        if len(params) != len(args):
+            return m.group(0)
+        text = extract.fn_body(src, name)
+        ren = {q: re.sub(r"^&\s*(mut\s+)?", "", a) for q, a in zip(params, args)}
+        # all parameters at once, and never a field or method of the same name
+        return re.sub(r"(?<![.\w])(%s)\b" % "|".join(map(re.escape, ren)), lambda k: ren[k.group(1)], text)
+    return re.sub(r"(?:EntityTreeService|Self)\s*::\s*(\w+)\s*\(([^()]*)\)", repl, body)
+
+
 @extract.item("E10TreeGoc")
 def tree_goc(repo):
     src = extract.strip_comments(extract.read(repo, "manager/entity_tree_service.rs"))
@@ -34,6 +54,7 @@ def tree_goc(repo):
     par = extract.fn_body(src, "build_tree_parallel")
     if len(re.findall(r"get_or_create_entity_2\(", par)) != 2 or ".chunks(self.chunk_size)" not in par:
         raise ValueError("build_tree_parallel no longer has the expected shape")
+    par = _inline_helpers(src, par)
     steps = [m.group(0) for m in re.finditer(r"get_or_create_entity_2\(&e_info\.id|get_or_create_entity_2\(parent_class|"
                                              r"entity\.lock\(\)\.unwrap\(\)\.parent\s*=|parent_entity\.lock\(\)\.unwrap\(\)\.children\.push", par)]
     if len(steps) != 4 or not (steps[0].endswith("e_info.id") and "parent_class" in steps[1]
